@@ -30,7 +30,7 @@ func (g *gen) construct(ty *Type, d int) string {
 	case kInt, kBool, kString:
 		return g.nc(ty, 0)
 	case kPtrInt:
-		switch g.weighted([]int{4, 2, 2, 2, 1}, "mkptr") {
+		switch g.weighted([]int{4, 3, 2, 2, 1}, "mkptr") {
 		case 0:
 			if v := g.addressable(tInt, "addrvar"); v != nil {
 				g.feat("addr-of-var")
@@ -55,7 +55,7 @@ func (g *gen) construct(ty *Type, d int) string {
 		g.feat("new")
 		return "new(int)"
 	case kSlice:
-		switch g.weighted([]int{4, 2, 3, 3, 2, 1, 1}, "mkslice") {
+		switch g.weighted([]int{4, 2, 3, 4, 2, 1, 1}, "mkslice") {
 		case 0:
 			g.feat("slice-lit")
 			return "([]int{" + joinN(g.rng(0, 4, "sln"), func() string { return e(tInt) }) + "})"
